@@ -246,6 +246,14 @@ for k in ("CreateConcept", "UpsertConcept", "EnsureProposition", "_"):
 dh = inlined_body(cl, "declare_handles")
 declared = sorted(set(re.findall(r"MutationClause\s*::\s*(\w+)\s*\(\s*" + ID + r"\s*\)\s*=>\s*\(\s*Some", dh)))
 
+# every clause kind `clauses::apply` dispatches on (the model must know each of them by name)
+ap = fn_body(cl, "apply")
+clause_kinds = sorted(set(re.findall(r"MutationClause\s*::\s*(\w+)\s*\(", ap)))
+if len(clause_kinds) < 5:
+    die(f"{T}: clauses::apply dispatches on only {len(clause_kinds)} MutationClause variants")
+if re.search(r"\n\s*_\s*=>", ap):
+    die(f"{T}: clauses::apply has a catch-all arm: the list of clause kinds is no longer explicit")
+
 en = fn_body(cl, "ensure_proposition")
 p_find = one(en, r"\.\s*find_proposition\s*\(", ".find_proposition(").start()
 p_mint = one(en, r"\.\s*mint\s*\(", ".mint(").start()
@@ -376,6 +384,8 @@ def passUpsertConcept : Nat := {table["UpsertConcept"]}
 def passEnsureProposition : Nat := {table["EnsureProposition"]}
 def passOther : Nat := {table["_"]}
 def passExplicit : List String := [{", ".join('"' + k + '"' for k in sorted(table) if k != "_")}]
+/-- every `MutationClause` variant `clauses::apply` dispatches on -/
+def clauseKinds : List String := [{", ".join('"' + k + '"' for k in clause_kinds)}]
 /-- the clause variants `declare_handles` mints a shell for in phase 1 -/
 def declaredInPhase1 : List String := [{", ".join('"' + k + '"' for k in declared)}]
 
@@ -424,6 +434,10 @@ theorem gen_plan :
     passEnsureProposition = 1 ∧ passOther = 2 ∧
     passExplicit = ["CreateConcept", "EnsureProposition", "UpsertConcept"] ∧
     declaredInPhase1 = ["CreateActivity", "CreateAssertion", "CreateConcept", "CreateEvidence"] := by decide
+theorem gen_clause_kinds :
+    clauseKinds = ["Archive", "CorrectEvidence", "CreateActivity", "CreateAssertion", "CreateConcept", "CreateEvidence",
+      "EnsureProposition", "MergeConcept", "Purge", "RetractAssertion", "SetRetention", "SupersedeAssertion", "Tombstone",
+      "TransitionActivity", "Update", "UpsertConcept"] := by decide
 theorem gen_locks :
     lockKml = .exclusive ∧ lockKql = .shared ∧ lockMeta = .shared ∧
     (lockHeldAcrossKml && lockHeldAcrossKql && lockHeldAcrossMeta) = true := by decide
